@@ -31,12 +31,13 @@ def setup(ctx):
     )
     ctx.assumptions = [
         "client side is CPython's ssl (OpenSSL 3.0) in both L2 and L3",
-        "static files are text (StaticFileHandler reads text); expected body is what handle() returned",
+        "static files are text (StaticFileHandler serves UTF-8 text only); the expected body is the file's bytes on disk",
     ]
     ctx.require("monitor", "streams_compared", 40)
     ctx.require("monitor", "l3_streams_compared", 8)
     ctx.require("monitor", "stalled_reader_streams", 10)
     ctx.require("monitor", "at_limit_streams", 8)
+    ctx.require("monitor", "static_files_with_special_text", 8)
     ctx.require("backend", "pyopenssl", 10)
     ctx.require("backend", "stdlib", 10)
 
@@ -219,6 +220,23 @@ def run_l3(ctx):
             with open(os.path.join(root, name), "w", encoding="utf-8", newline="") as f:
                 f.write(text)
             files[name] = text.encode("utf-8")
+        # text whose bytes a careless reader would "tidy up": byte-order mark, CRLF and lone CR line ends,
+        # other Unicode line separators, form feed, NUL - the client must get the file's bytes as they are
+        odd = {
+            "odd_bom.gmi": "\ufeff# Title after a byte-order mark\n".encode("utf-8"),
+            "odd_bom_big.gmi": ("\ufeff" + text_body(48000, rng)).encode("utf-8"),
+            "odd_crlf.gmi": b"# CRLF file\r\nline two\r\n=> gemini://x/ link\r\n",
+            "odd_cr.gmi": b"progress 10%\rprogress 50%\rprogress 100%\n",
+            "odd_mixed.gmi": b"a\r\nb\nc\rd\r\r\ne\n\r",
+            "odd_unicode_seps.gmi": "nel\u0085ls\u2028ps\u2029vt\x0bff\x0cend\n".encode("utf-8"),
+            "odd_nul.gmi": b"nul \x00 inside\x00\n\x1a after ctrl-z\n",
+            "odd_bom_middle.gmi": "start\n\ufeffmiddle bom\n".encode("utf-8"),
+            "odd_crlf_big.gmi": (b"0123456789abcdef\r\n" * 5000),
+        }
+        for name, data in odd.items():
+            with open(os.path.join(root, name), "wb") as f:
+                f.write(data)
+            files[name] = data
         max_fs = 8 << 20
         for backend in ("stdlib", "pyopenssl"):
             if not ctx.mine(0 if backend == "stdlib" else 1) and ctx.nshards > 1:
@@ -234,7 +252,9 @@ def run_l3(ctx):
                         if len(files[name]) > 3000000 and p == "slow":
                             continue
                         r = live.fetch_raw(srv.port, f"gemini://localhost/{name}\r\n".encode(), reader=p, timeout=120, host=srv.host)
-                        case = {"backend": backend, "len": len(files[name]), "btype": "str", "source": "static", "reader": p}
+                        case = {"backend": backend, "len": len(files[name]), "btype": "str", "source": "static" if not name.startswith("odd_") else "static:" + name[:-4], "reader": p}
+                        if name.startswith("odd_"):
+                            ctx.count("monitor", "static_files_with_special_text")
                         if r["error"] and not r["data"]:
                             ctx.inconclusive_because(f"L3 fetch failed: {r['error']}")
                             continue
